@@ -76,6 +76,9 @@ func (c *VChan) PeerClosed() bool { return c.peerClosed }
 // FailSends makes every subsequent Send report an error.
 func (c *VChan) FailSends() { c.mu.Lock(); c.sendFail = true; c.mu.Unlock() }
 
+// HealSends ends a transient failure: Sends succeed again.
+func (c *VChan) HealSends() { c.mu.Lock(); c.sendFail = false; c.mu.Unlock() }
+
 // Lock and Unlock give the harness consistent access to Out.
 func (c *VChan) Lock()   { c.mu.Lock() }
 func (c *VChan) Unlock() { c.mu.Unlock() }
